@@ -73,6 +73,10 @@ type World struct {
 	post []func()
 }
 
+// deep reports whether the thorough tier is running: configurations then draw from wider
+// ranges (longer programs, more clients, bigger datasets, more faults).
+func (w *World) deep() bool { return w.tier == "thorough" }
+
 // knob draws (or replays) a named integer in [0,n).
 func (w *World) knob(name string, n int) int {
 	if w.rep != nil {
